@@ -42,6 +42,7 @@ from .values import (
     py_getattr,
     py_none,
     PySeq,
+    PyBytes,
     py_of_list,
     py_of_tuple,
     py_of_bool,
@@ -151,6 +152,9 @@ class LazyGen:
         self.resume_evt.clear()
         if self.killed:
             raise GenKill()
+        if getattr(self, "throw_exc", None) is not None:
+            e, self.throw_exc = self.throw_exc, None
+            raise PyRaise(e)  # generator.throw(): the exception is raised at the yield
 
     def close(self):
         if self.thread is not None and self.thread.is_alive() and not self.finished:
@@ -158,6 +162,37 @@ class LazyGen:
             self.resume_evt.set()
             self.thread.join(5)
         self.done = True
+
+
+class CtxManager:
+    """What a @contextmanager function returns: __enter__ runs the generator to its yield, __exit__ resumes it (throwing the exception in)."""
+
+    def __init__(self, it, gen):
+        self.it, self.gen = it, gen
+
+    def __enter__(self):
+        try:
+            return next(self.gen)
+        except StopIteration:
+            raise PyRaise(RuntimeError("generator didn't yield"))
+
+    def __exit__(self, typ, exc, tb):
+        if exc is None:
+            try:
+                next(self.gen)
+            except StopIteration:
+                return False
+            raise PyRaise(RuntimeError("generator didn't stop"))
+        self.gen.throw_exc = exc
+        try:
+            next(self.gen)
+        except StopIteration:
+            return True  # the generator swallowed the exception
+        except PyRaise as e:
+            if e.exc is exc:
+                return False
+            raise
+        raise PyRaise(RuntimeError("generator didn't stop after throw()"))
 
 
 class PathResult:
@@ -465,6 +500,8 @@ class Interp:
                 return meth == "__ne__"
             conj = []
             for x, y in zip(a, b):
+                if x is y and not isinstance(x, Sym):
+                    continue  # PyObject_RichCompareBool: identical elements are equal without calling __eq__ (a NaN in a tuple equals itself)
                 r = self.compare("Eq", x, y)
                 if isinstance(r, SBool):
                     conj.append(r.t)
@@ -693,12 +730,18 @@ class Interp:
         raise Unsupported(f"unary {type(opnode).__name__} on {v!r}")
 
     def hash_(self, v):
-        if isinstance(v, (list, dict, set)):
+        """hash(v): raises TypeError for unhashable values, otherwise an abstract hash value whose term is a *function of the value*
+        (equal values give equal terms by congruence; nothing else is assumed about hashes)."""
+        py_hash = z3.Function("py_hash", PyVal, PyVal)
+        if isinstance(v, (list, dict, set, bytearray)):
             raise PyRaise(TypeError(f"unhashable type: '{type(v).__name__}'"))
         if isinstance(v, tuple):
+            units = []
             for x in v:
-                self.hash_(x)
-            return Opaque("hash")
+                h = self.hash_(x)
+                units.append(z3.Unit(h.t if isinstance(h, Opaque) else self.pyval(h)))
+            seq = z3.Empty(PySeq) if not units else units[0] if len(units) == 1 else z3.Concat(*units)
+            return Opaque("hash", py_hash(py_of_tuple(seq)))
         if isinstance(v, PObj):
             if v.cls.has("__hash__"):
                 h = v.cls.find("__hash__")
@@ -714,12 +757,31 @@ class Interp:
                     raise PyRaise(TypeError(f"unhashable type: '{v.cls.name}'"))
             if v.has_base:
                 return self.hash_(v.base)
-            return Opaque("hash")
+            return Opaque("hash", py_hash(self.identity_term(v)))
+        if isinstance(v, frozenset):
+            hs = []
+            for x in v:
+                self.hash_(x)
+            if self.concrete(v):
+                return Opaque("hash", py_hash(py_of_int(z3.IntVal(hash(v)))))
+            raise Unsupported("hash of a frozenset with symbolic elements")
+        if isinstance(v, (SInt, SBool)) or isinstance(v, (bool, int)):
+            return Opaque("hash", py_hash(py_of_int(self.zint(v))))  # hash(True) == hash(1): bool and int hash by numeric value
+        if isinstance(v, float) and v == v and v not in (float("inf"), float("-inf")) and v == int(v):
+            return Opaque("hash", py_hash(py_of_int(z3.IntVal(int(v)))))  # hash(1.0) == hash(1)
+        if isinstance(v, (SStr, str)) and self.zstr(v) is not None:
+            return Opaque("hash", py_hash(py_of_str(self.zstr(v))))
+        if v is None:
+            return Opaque("hash", py_hash(py_none))
+        if isinstance(v, Opaque):
+            return Opaque("hash", py_hash(v.t))
         if self.concrete(v):
             try:
-                return hash(v)
+                return Opaque("hash", py_hash(py_of_int(z3.IntVal(hash(v)))))
             except Exception as e:
                 raise PyRaise(e)
+        if isinstance(v, SBytes):
+            return Opaque("hash", py_hash(z3.Function("py_of_bytes", PyBytes, PyVal)(v.t)))
         return Opaque("hash")
 
     def dict_key(self, k):
@@ -795,6 +857,8 @@ class Interp:
                     if r is not NOTIMPL:
                         return r
                 if self.concrete(o.base) and hasattr(o.base, name):
+                    if name == "real" and type(o.base) is float:
+                        return float.fromhex(o.base.hex())  # .real of a float *subclass* instance is a new float object (matters for NaN identity)
                     return getattr(o.base, name)
             ga = o.cls.find("__getattr__")
             if isinstance(ga, PFunc):
@@ -1043,7 +1107,7 @@ class Interp:
         if has_yield(f.node):
             g = LazyGen(self, f, env)
             env["__yield__"] = g.emit
-            return g
+            return CtxManager(self, g) if f.is_contextmanager else g
         try:
             self.block(f.node.body, env, f.mod)
         except ReturnSignal as r:
@@ -1312,6 +1376,8 @@ class Interp:
             v = dict.__getitem__(cenv, k)
             if isinstance(v, PFunc) and v.owner is None:
                 v.owner = c
+            if k.startswith("__") and not k.endswith("__"):
+                k = f"_{c.name.lstrip('_')}{k}"  # private name mangling applies to names bound in the class body as well
             c.d[k] = v
         v = c
         for d in reversed(s.decorator_list):
